@@ -16,6 +16,7 @@ kernel with a natural power is PSD as well (`psd_sumPower_nat`).
 -/
 import Xrfmv.Lemmas.Kernel
 import Xrfmv.Lemmas.KernelPsd
+import Mathlib.Analysis.SpecialFunctions.Pow.Continuity
 
 namespace Xrfmv.Props.C05
 open Xrfmv Xrfmv.Kernel
@@ -222,6 +223,16 @@ theorem alias_spec (a : RfmArgs ℝ) :
     specOfAlias "sum_power_laplace" a = some (.sumPower a.exponent a.bandwidth a.constMix a.power) ∧
     specOfAlias "gaussian" a = none ∧ Gen.Alias.unknownRaisesValueError = true := by
   refine ⟨?_, ?_, ?_, ?_, ?_, ?_, ?_, ?_, ?_, ?_⟩ <;> rfl
+
+/-- The Laplace profile `exp(−d^q/L^q)` tends to 0 as the distance grows (`q > 0`, `L > 0`): far from all
+centres every kernel value vanishes (used by C12's far-row limit). -/
+theorem lap_tendsto_zero {q L : ℝ} (hq : 0 < q) (hL : 0 < L) :
+    Filter.Tendsto (fun d : ℝ => lap q L d) Filter.atTop (nhds 0) := by
+  have h1 : Filter.Tendsto (fun d : ℝ => d ^ q / L ^ q) Filter.atTop Filter.atTop :=
+    (tendsto_rpow_atTop hq).atTop_div_const (Real.rpow_pos_of_pos hL q)
+  have h2 := Real.tendsto_exp_neg_atTop_nhds_zero.comp h1
+  refine h2.congr fun d => ?_
+  simp only [Function.comp, lap, rpow_real, exp_real, neg_div]
 
 /-! ### positive semi-definiteness -/
 
